@@ -1,6 +1,8 @@
 package socket
 
 import (
+	"bytes"
+
 	"github.com/henrylee2cn/erpc/v6/xfer"
 )
 
@@ -208,4 +210,50 @@ func VX_C12_UnregisteredInPipe(args []int) {
 	err := RawProtoFunc(&vxBuf{data: evil}).Unpack(got)
 	vxAssert(err != nil, "a frame whose pipe names an unregistered filter at any position is refused")
 	vxCover("c12.unregistered-in-pipe")
+}
+
+func init() { vxRegister("VX_C12_RecycledPipe", VX_C12_RecycledPipe) }
+
+// VX_C12_RecycledPipe: one message object is used for two frames in a row
+// (recycled through Reset, as the pools do): first with pipe P1, then with a
+// pipe P2 chosen by the solver among the registered filters (same length or
+// not). The second frame names exactly P2 on the wire, the receiver learns P2
+// from the frame and restores the payload. args: pipeCode1, len2, nBody
+func VX_C12_RecycledPipe(args []int) {
+	p1, n2, nBody := vxPipeOf(args[0]), args[1], args[2]
+	var p2 []byte
+	for k := 0; k < n2; k++ {
+		p2 = append(p2, byte('A'+vxChoose("f", 3)))
+	}
+	w := &vxBuf{}
+	p := RawProtoFunc(w)
+	m := GetMessage()
+	fill := func(seq int32, pipe []byte, body []byte) {
+		m.SetSeq(seq)
+		m.SetMtype(1)
+		m.SetServiceMethod("/r")
+		m.SetBody(body)
+		vxAssume(m.XferPipe().Append(pipe...) == nil)
+	}
+	b1, b2 := vxBytes("one", nBody), vxBytes("two", nBody)
+	fill(1, p1, b1)
+	vxAssert(bytes.Equal(m.XferPipe().IDs(), p1), "a message names the pipe it was given")
+	vxAssume(p.Pack(m) == nil)
+	m.Reset()
+	fill(2, p2, b2)
+	vxAssert(bytes.Equal(m.XferPipe().IDs(), p2), "a recycled message names the pipe of its present use, not of the previous one")
+	vxAssume(p.Pack(m) == nil)
+	for k, want := range [][]byte{p1, p2} {
+		var res []byte
+		g := NewMessage(WithNewBody(func(Header) interface{} { return &res }))
+		err := p.Unpack(g)
+		vxAssert(err == nil, "frame of a recycled message decodes")
+		vxAssert(err != nil || bytes.Equal(g.XferPipe().IDs(), want), "the receiver learns the pipe from the frame itself")
+		wb := b1
+		if k == 1 {
+			wb = b2
+		}
+		vxAssert(err != nil || bytes.Equal(res, wb), "and the payload is restored exactly")
+	}
+	vxCover("c12.recycled-pipe")
 }
